@@ -227,6 +227,13 @@ class VMFMMFamily(Family):
     def log_pdf(self, model, data):
         return model.vmf.log_pdf(data['y'][..., None, :, :])
 
+    def mstep_guard(self, model, opts):
+        k = np.asarray(model.vmf.concentration)
+        if np.any(k <= opts.get('min_concentration', 1e-10) * (1 + 1e-12)) \
+                or np.any(k >= opts.get('max_concentration', 500) * (1 - 1e-12)):
+            return 'vmf-concentration-at-bound'
+        return None
+
     def mean(self, model):
         return model.vmf.mean
 
